@@ -1111,6 +1111,27 @@ impl ConfigBuilder {
     pub fn build(&self) -> Result<Config, ConfigBuilderError> {
         // check all constraints on config
 
+        // The default transmit size and the default mesh parameters are used for every topic
+        // without settings of its own and have to satisfy the same constraints.
+        if self.config.protocol.default_max_transmit_size < 100 {
+            return Err(ConfigBuilderError::MaxTransmissionSizeTooSmall);
+        }
+
+        let TopicMeshConfig {
+            mesh_n,
+            mesh_n_low,
+            mesh_n_high,
+            mesh_outbound_min,
+        } = &self.config.topic_configuration.default_mesh_params;
+
+        if !(mesh_outbound_min <= mesh_n_low && mesh_n_low <= mesh_n && mesh_n <= mesh_n_high) {
+            return Err(ConfigBuilderError::MeshParametersInvalid);
+        }
+
+        if mesh_outbound_min * 2 > *mesh_n {
+            return Err(ConfigBuilderError::MeshOutboundInvalid);
+        }
+
         let pre_configured_topics = self.config.protocol.max_transmit_sizes.keys();
         for topic in pre_configured_topics {
             if self.config.protocol.max_transmit_size_for_topic(topic) < 100 {
